@@ -454,6 +454,51 @@ pub fn run(ctx: &Ctx) -> CheckResult {
         res.extra.insert("long_horizon_steps".into(), json!(h));
         res.absorb(merge_jobs(outs));
     }
+    // 2^32 + 2048 calls on one instance (a tick / call counter in a 32-bit type wraps there; a ring slot
+    // derived from it jumps unless the period divides 2^32): every one of the last 4000 steps - before, at
+    // and after the wrap - against a fresh instance fed the last window
+    if !res.out.failed() {
+        let mut hz: Vec<Cfg> = vec![Cfg::p1(Kind::Max, 10), Cfg::p1(Kind::Min, 14)];
+        if th {
+            hz.extend([Cfg::p1(Kind::Sma, 10), Cfg::p1(Kind::Roc, 10), Cfg::p1(Kind::Wma, 9), Cfg::p1(Kind::Sd, 10), Cfg::p1(Kind::FastStoch, 14), Cfg::p1(Kind::Mfi, 14)]);
+        }
+        let outs = par_run(ctx, &hz, |_, cfg| {
+            let mut out = JobOut::default();
+            let w = cfg.kind.window(cfg).unwrap();
+            out.stats.traces += 1;
+            out.stats.transitions += super::refcmp::CALLS_PAST_2_32;
+            match super::refcmp::run_past_2_32(cfg, ctx.seed ^ 0x3217) {
+                Err(done) => out.fail(Violation::new(PROP, cfg, &[], "panic").obs(format!("panic in call number {}", done + 1)).exp("outputs".into()).det("one instance fed an LCG-driven 64-level price grid".into())),
+                Ok((ops, outs)) => {
+                    let total = super::refcmp::CALLS_PAST_2_32 as usize;
+                    for k in (w + 64)..ops.len() {
+                        let suffix = &ops[k + 1 - w..=k];
+                        let b = match last_of(cfg, suffix) {
+                            Some(b) => b,
+                            None => {
+                                out.fail(Violation::new(PROP, cfg, suffix, "panic").obs("panic".into()).exp("outputs".into()));
+                                return out;
+                            }
+                        };
+                        out.stats.states += 1;
+                        let step = total - (ops.len() - 1 - k);
+                        let before = out.violations.len();
+                        if !compare_at(cfg, &ops[..=k], step, suffix, &outs[k], &b, &mut out) {
+                            if out.violations.len() > before {
+                                if let Some(v) = out.violations.last_mut() {
+                                    v.detail.push_str(&format!(" [call number {} on one instance (2^32 = 4294967296); ops shown = the calls since number {}]", step, total - ops.len() + 1));
+                                }
+                            }
+                            return out;
+                        }
+                    }
+                }
+            }
+            out
+        });
+        res.extra.insert("calls_on_one_instance".into(), json!(super::refcmp::CALLS_PAST_2_32));
+        res.absorb(merge_jobs(outs));
+    }
     // larger periods: spike-laden prefixes of several lengths x default suffixes of length w..w+2
     if !res.out.failed() {
         let periods: Vec<usize> = if th { vec![5, 6, 7, 8, 9, 13, 14, 16, 20, 31, 32, 33, 64, 100, 255, 256, 257] } else { vec![5, 8, 9, 14, 16, 20, 32, 33, 64] };
